@@ -116,8 +116,79 @@ and fields_of (fs : hfield list) (kvs : (n list * value) list) : hval list =
          | HStructList _ -> HRs []
          | _ -> HAbsent)) fs
 
+(* ---- case kind loc: the locals stage (Model/HclLocals.v); expression encoding: see harness/cmd/hC16/locals.go *)
+let str_of_string (x : string) : n list = List.init (String.length x) (fun i -> n_of_int (Char.code x.[i]))
+
+let rec lexpr_of (v : value) : lexpr =
+  match v with
+  | VStr x -> ELit (LS x)
+  | VList (VInt tag :: rest) ->
+      (match int_of_z tag, rest with
+       | 0, [VStr name] -> ERef name
+       | 1, [a; b] -> ECat (lexpr_of a, lexpr_of b)
+       | 2, [a; b] -> EConcat (lexpr_of a, lexpr_of b)
+       | 3, [a; b] -> EMerge (lexpr_of a, lexpr_of b)
+       | _ -> failwith "bad expression")
+  | VList l -> ELit (LL (List.map (fun x -> match x with VStr y -> y | _ -> failwith "bad list literal") l))
+  | VMap kvs -> ELit (LM (List.map (fun (k, x) -> (k, (match x with VStr y -> y | _ -> failwith "bad map literal"))) kvs))
+  | _ -> failwith "bad expression"
+
+let value_of_lval (v : lval) : value =
+  match v with
+  | LS x -> VStr x
+  | LL l -> VList (List.map (fun x -> VStr x) l)
+  | LM kvs -> VMap (List.map (fun (k, x) -> (k, VStr x)) kvs)
+
+let get_field (obs : string) (p : string) : string =
+  match List.find_opt (fun x -> String.length x > String.length p && String.sub x 0 (String.length p) = p) (split_blank obs) with
+  | Some x -> String.sub x (String.length p) (String.length x - String.length p)
+  | None -> "?"
+
+let predict_loc (btok : string) (bodytok : string) (obs : string) : string * string * bool =
+  let blocks = (match parse_tree btok with
+                | VList l -> List.map (fun b -> match b with VMap kvs -> List.map (fun (k, e) -> (k, lexpr_of e)) kvs | _ -> failwith "bad block") l
+                | _ -> failwith "bad blocks") in
+  let body = (match parse_tree bodytok with VMap kvs -> kvs | _ -> failwith "bad body") in
+  let field k kvs = List.find_opt (fun (k', _) -> k' = str_of_string k) kvs in
+  let reqs = (match field "reqs" body with Some (_, VList l) -> List.map (fun r -> match r with VMap kvs -> kvs | _ -> failwith "bad request") l | _ -> []) in
+  let steps = (match field "steps" body with Some (_, e) -> lexpr_of e | None -> failwith "no steps") in
+  let req_keys = ["uri"; "headers"; "tag"; "body"] in
+  (* the body expressions in a fixed order, with the place each value goes to *)
+  let slots = List.concat (List.mapi (fun i r ->
+      List.filter_map (fun k -> match field k r with Some (_, e) -> Some ((i, k), lexpr_of e) | None -> None) req_keys) reqs) in
+  let exprs = List.map snd slots @ [steps] in
+  let describe (vals : lval list) : value =
+    let n = List.length slots in
+    let req_vals = List.combine (List.map fst slots) (List.filteri (fun i _ -> i < n) vals) in
+    let rs = List.mapi (fun i _ ->
+        VMap ([(str_of_string "name", VStr (str_of_string ("r" ^ string_of_int i))); (str_of_string "method", VStr (str_of_string "GET"))]
+              @ List.filter_map (fun ((j, k), v) -> if j = i then Some (str_of_string k, value_of_lval v) else None) req_vals)) reqs in
+    VMap [(str_of_string "requests", VList rs);
+          (str_of_string "scenarios", VList [VMap [(str_of_string "name", VStr (str_of_string "s"));
+                                                   (str_of_string "requests", value_of_lval (List.nth vals n))]])] in
+  let get = get_field obs in
+  (* prediction: the code-shaped model (accumulator loop); verdict: the specification (nearest definition above) *)
+  let pred = (match parse_hcl blocks exprs with
+              | Some vals -> Printf.sprintf "y=%s hl== hi==" (decode_tree (describe vals))
+              | None -> "y=- hl=err hi=-") in
+  let v, nt =
+    (match spec_locals blocks exprs with
+     | Some vals ->
+         let dy = decode_tree (describe vals) in
+         ((if get "y=" = "panic" || get "hl=" = "panic" || get "hi=" = "panic" then "BAD:panic"
+           else if get "y=" <> dy then "BAD:yaml-of-the-evaluated-locals-program-not-as-specified"
+           else if get "hl=" <> "=" then "BAD:hcl-locals-blocks-differ-from-yaml"
+           else if get "hi=" <> "=" then "BAD:hcl-with-locals-written-out-differs-from-yaml"
+           else "ok"), dy <> "err")
+     | None ->
+         ((if get "hl=" = "err" then "ok"
+           else if get "hl=" = "panic" then "BAD:panic"
+           else "BAD:hcl-accepts-a-local-without-a-value"), true)) in
+  (pred, v, nt)
+
 let predict (c : string) (obs : string) : string * string * bool =
   match split_blank c with
+  | ["loc"; btok; bodytok] -> predict_loc btok bodytok obs
   | ["scn"; tok] ->
       let tree = parse_tree tok in
       let dy = decode_tree tree in
